@@ -43,6 +43,15 @@ Proof.
 Qed.
 Print Assumptions c15_unambiguous.
 
+(* the common ancestor of a genome set (any size >= 2, members in any relative position) *)
+Theorem c15_mrca_of_genome_set : forall t st x y r m,
+  get_mrca_genome_set t st (x :: y :: r) = Ok m ->
+  (forall g, In g (x :: y :: r) -> anc_of m g) /\
+  (forall a, (forall g, In g (x :: y :: r) -> anc_of a g) -> anc_of a m) /\
+  In m (s_genomes st) /\ is_leaf t m = false.
+Proof. exact mrca_set_spec. Qed.
+Print Assumptions c15_mrca_of_genome_set.
+
 Local Open Scope string_scope.
 Example c15_nonvacuous :
   build_taxonomy true (SNode "R" [SNode "X" [SNode "A" []; SNode "B" []]; SNode "X" [SNode "C" []; SNode "D" []]]) = Err KeyError /\
